@@ -131,7 +131,7 @@ def random_item(rng):
     if r < 0.76:
         return ("p", intro, rng.randrange(18), rng.choice([None, rng.randrange(16), rng.randrange(16), 15]))
     if r < 0.90:
-        n = rng.choice([0, 0, 1, 1, 2, 3, rng.randrange(8)])
+        n = rng.choice([0, 0, 1, 1, 2, 3, rng.randrange(8), 15, 16, 17, 18, 33, 64, 100])
         params = [rng.choice([None, 0, 1, 2, 7, 16, 22, 25, 200, 1000, 2**31, 2**32 + 11, 10**20 - 1, rng.randrange(100)])
                   for _ in range(n)]
         for _ in range(50):
@@ -362,7 +362,7 @@ def hist_case(rng, n, tag):
     whole = b"".join(segs)
     # the whole stream arrives in one delivery, segment by segment, or segment by segment from a channel that already
     # holds the deliveries and completes every read synchronously (run marked `!`)
-    first = rng.choice([hx(whole), ",".join(hx(s_) for s_ in segs), "!" + ",".join(hx(s_) for s_ in segs)])
+    first = rng.choice([hx(whole), ",".join(hx(s_) for s_ in segs), "!" + ",".join(hx(s_) for s_ in segs), "!!" + ",".join(hx(s_) for s_ in segs)])
     line = "I " + " / ".join([first] + [hx(s_) for s_ in segs])
     return line, ["HIST " + tag]
 
